@@ -607,6 +607,13 @@ def same(a, b):
     return a == b
 
 
+# number of loops of each routine the segment tables below describe
+LOOPS = {WK + 'setup': 1, WK + 'keygen': 1, WK + 'nondelegable_keygen': 1, WK + 'qualifykey': 1, WK + 'nondelegable_qualifykey': 1,
+         WK + 'adjust_nondelegable': 3, WK + 'precompute': 1, WK + 'adjust_precomputed': 3, WK + 'resamplekey': 1,
+         WK + 'encrypt_precomputed': 0, WK + 'decrypt': 0, WK + 'decrypt_master': 0, WK + 'sign_precomputed': 2, WK + 'verify_precomputed': 0,
+         LQ + 'setup': 0, LQ + 'keygen': 0, LQ + 'encrypt': 0, LQ + 'decrypt': 0}
+
+
 def check_function(prog, spec):
     """returns (number of segments checked, [(site, message)])"""
     fs = prog.fn_by_qn(spec['fn'])
@@ -614,6 +621,12 @@ def check_function(prog, spec):
         raise bm.AnalysisBroken('%s: expected exactly one definition with a body, found %d' % (spec['fn'], len(fs)))
     f = fs[0]
     g = CFG(f)
+    want_loops = LOOPS.get(spec['fn'])
+    if want_loops is None or len(g.loops) != want_loops:
+        # the effect tables are written per segment between loop heads: with another loop structure they say nothing about the routine
+        raise bm.AnalysisBroken('R-SCHEME: %s has %d loop(s); the segment tables of the construction were written for %s - the routine has been '
+                                'restructured and this rule has no verdict on it (the structure-independent rules still apply)'
+                                % (spec['fn'], len(g.loops), want_loops))
     problems = []
     nseg = 0
     scratch = set(spec.get('scratch', []))
